@@ -34,6 +34,9 @@ def gen_case(st, tier, env):
     w, k = st.workload, st.knobs
     ds = gen.gen_dataset(w, n_max=6 if k.random() < 0.8 else 8, m_max=6)
     scheme = gen.gen_scheme(w, dyadic=k.random() < 0.6)
+    if k.random() < 0.08:
+        # small magnitudes only: every reported number shrinks with the scheme, the 1e-6 of the statement does not
+        scheme = dict(gen.scale(scheme, 10.0 ** k.choice([-6, -5, -5, -4, -3])), family=scheme.get("family", "") + "/small")
     # a second dataset / scheme: the same algorithm *instances* serve both, and the reads are interleaved, so a
     # score cached on an instance (or anywhere but the consensus it belongs to) shows up as another consensus' score
     ds2 = gen.gen_dataset(w, n_max=5, m_max=5)
